@@ -5,6 +5,6 @@ From Coq Require Import Extraction ExtrOcamlBasic.
 From Snoopy Require Import Registry.Model Registry.Exec Registry.Options.
 From Gen Require Import Gen_Registry.
 Extraction "model_registry.ml" Gen_Registry.consts Gen_Registry.options Options.opt_find Options.opt_select Options.parser_of Options.getter_of
-  Exec.model_names_arr Exec.model_ptrs_arr Exec.model_call Exec.model_call_id Exec.model_count Exec.model_get_name Exec.model_dispatch Exec.model_chain Exec.spec_chain_ok
+  Exec.model_names_arr Exec.model_ptrs_arr Exec.model_call Exec.model_call_id Exec.model_count Exec.model_get_name Exec.model_dispatch Exec.model_chain Exec.spec_chain_ok Exec.model_exec Exec.spec_exec_ok Exec.model_thread_expect
   Exec.spec_C13_ok Exec.model_fixed Exec.model_all_names Exec.cfg_of
   Model.get_id Model.get_count Model.get_name Model.does_id_exist Model.does_name_exist.
